@@ -186,4 +186,65 @@ Proof.
   - exists f. auto.
 Qed.
 
+(* ---- the interpretive tuple template, keyword-only attributes by keyword, init=False attributes left out ---- *)
+Lemma pos_params_cons (f : field) l :
+  pos_params V (f :: l) = if f_init f && negb (f_kw_only f) then f :: pos_params V l else pos_params V l.
+Proof. unfold pos_params, params. cbn [filter]. destruct (f_init f); cbn [andb filter]; [destruct (f_kw_only f); reflexivity | reflexivity]. Qed.
+
+Lemma zip_split_sound : forall l vs pos kw,
+  zip_split V hs true l vs = Ok (pos, kw) ->
+  forall b, bind_pos V (pos_params V l) pos = Ok b ->
+  (forall a v, assoc b a = Some v -> exists g, In g l /\ f_alias g = a /\ exists w, hs (f_name g) w = Ok v) /\
+  (forall a v, assoc kw a = Some v -> exists g, In g l /\ f_alias g = a /\ exists w, hs (f_name g) w = Ok v).
+Proof.
+  induction l as [|f l IH]; intros vs pos kw H b Hb; cbn [zip_split] in H.
+  - inversion H; subst. cbn in Hb. inversion Hb; subst. split; intros a v X; discriminate.
+  - destruct vs as [|v0 vs].
+    + inversion H; subst. assert (b = []) by (destruct (pos_params V (f :: l)); cbn in Hb; now inversion Hb). subst. split; intros a v X; discriminate.
+    + cbn [andb] in H. rewrite pos_params_cons in Hb.
+      destruct (f_init f) eqn:Ei; cbn [negb andb] in H, Hb.
+      * destruct (hs (f_name f) v0) as [w| |] eqn:Eh; cbn [bind] in H; try discriminate.
+        destruct (zip_split V hs true l vs) as [[p k]| |] eqn:Ez; cbn [bind fst snd] in H; try discriminate.
+        destruct (f_kw_only f) eqn:Ek; cbn [negb] in Hb; inversion H; subst.
+        -- destruct (IH vs pos k Ez b Hb) as [I1 I2]. split.
+           ++ intros a v X. destruct (I1 a v X) as (g & Hg & Ea & Hw). exists g. split; [now right | auto].
+           ++ intros a v X. cbn [assoc] in X. destruct (N.eqb (f_alias f) a) eqn:E.
+              ** apply N.eqb_eq in E. inversion X; subst. exists f. split; [now left|]. eauto.
+              ** destruct (I2 a v X) as (g & Hg & Ea & Hw). exists g. split; [now right | auto].
+        -- cbn [bind_pos] in Hb. destruct (bind_pos V (pos_params V l) p) as [b0| |] eqn:Eb; cbn [bind] in Hb; try discriminate.
+           inversion Hb; subst b. destruct (IH vs p kw Ez b0 Eb) as [I1 I2]. split.
+           ++ intros a v X. cbn [assoc] in X. destruct (N.eqb (f_alias f) a) eqn:E.
+              ** apply N.eqb_eq in E. inversion X; subst. exists f. split; [now left|]. eauto.
+              ** destruct (I1 a v X) as (g & Hg & Ea & Hw). exists g. split; [now right | auto].
+           ++ intros a v X. destruct (I2 a v X) as (g & Hg & Ea & Hw). exists g. split; [now right | auto].
+      * destruct (IH vs pos kw H b Hb) as [I1 I2]. split; intros a v X; [destruct (I1 a v X) as (g & Hg & Y) | destruct (I2 a v X) as (g & Hg & Y)]; exists g; (split; [now right | exact Y]).
+Qed.
+
+Lemma bind_kw_assoc ps : forall kw bound b, bind_kw V ps bound kw = Ok b ->
+  forall a v, assoc b a = Some v -> assoc bound a = Some v \/ assoc kw a = Some v.
+Proof.
+  intros kw bound b H a v X. apply bind_kw_app in H. subst b. rewrite assoc_app2 in X. destruct (assoc bound a); [left; exact X | right; exact X].
+Qed.
+
+Theorem interp_tuple_sound fs o i :
+  NoDup (map (@f_alias V) fs) ->
+  tpl_interp_tuple V K hs true fs o = Ok i ->
+  forall nm v, assoc i nm = Some v -> entry_ok fs nm v.
+Proof.
+  intros Hal H nm v A. unfold tpl_interp_tuple in H.
+  destruct (o_iter o) as [vs| |]; cbn [bind] in H; try discriminate.
+  destruct (zip_split V hs true fs vs) as [[pos kw]| |] eqn:Ez; cbn [bind fst snd] in H; try discriminate.
+  unfold instantiate in H.
+  destruct (bind_pos V (pos_params V fs) pos) as [b| |] eqn:Eb; cbn [bind] in H; try discriminate.
+  destruct (bind_kw V (params V fs) b kw) as [b'| |] eqn:Ek; cbn [bind] in H; try discriminate.
+  destruct (zip_split_sound fs vs pos kw Ez b Eb) as [I1 I2].
+  destruct (fill_sound _ _ _ H nm v A) as (f & Hf & Hn & [[Hi Ha]|Hd]).
+  - assert (X : exists g, In g fs /\ f_alias g = f_alias f /\ exists w, hs (f_name g) w = Ok v).
+    { destruct (bind_kw_assoc _ _ _ _ Ek _ _ Ha) as [Y|Y]; [exact (I1 _ _ Y) | exact (I2 _ _ Y)]. }
+    destruct X as (g & Hg & Ea & w & Hw).
+    assert (g = f) by (apply (nodup_in_eq (@f_alias V) fs g f Hal Hg Hf); exact Ea). subst g.
+    exists f. split; [exact Hf|]. split; [exact Hn|]. right. exists w. now rewrite <- Hn.
+  - exists f. auto.
+Qed.
+
 End CS.
